@@ -1,437 +1,33 @@
 //! C05: reflection metadata agrees with the emitted source.
 //!
-//! request : C05.meta \t <dx|vk|vkba|msl> \t <all|name=P|nopipeline> \t <nstatics> \t <resources> \t <helpers> \t <entries> \t <pipes>
-//!   resource : name:kind:group:arr:ss:bl:st   kind = ObjectType name | cbuffer; group = - | n; arr = - | n | u (unsized);
-//!                                             ss (static sampler), bl (bindless) = 0 | 1; st = e (extern) | s (static)
-//!   helper   : name:uses:calls:statics        comma separated indices (uses -> resources, calls -> earlier helpers)
-//!   entry    : name:stage:uses:calls:statics:x.y.z|-
-//!   pipe     : name:dflt|-:entry indices
-//!   The request is self-contained: the shader file is rendered from it (no seed), so shrinking and the witness search
-//!   can edit requests.
+//! request : see `c05/case.rs` (a self-contained description of a shader file)
 //! observe : per built pipeline, joined by " ## ":
 //!   M[group|group..]   metadata: entries `name=i<slot>|n<offset>:DescriptorType:count|-:b<bindless>:u<used>:s<static sampler>`,
 //!                      `;inl=<slot>/<bytes>` when the group has an inline constant buffer
 //!   A[..]              binding annotations found in the *emitted source* (HLSL: re-parsed with the real rssl lexer+parser;
 //!                      MSL: text scan), `name=>[struct/]annotation text`, sorted
 //!   S[..]              reported stages `Stage:entry:x.y.z|-`
-//!   F[..]              for each reported stage the function of that name found in the emitted source with its
-//!                      numthreads (HLSL) / max_total_threads_per_threadgroup (MSL), or `!missing(name)`
-//! oracle  : independent of the Lean model (see `judge_*`): every metadata entry matches annotation, declared type and
+//!   F[..]              for each reported stage the function of that name found in the emitted source with the *values* of
+//!                      its numthreads attributes (HLSL; several attributes joined by `/`) / of its
+//!                      max_total_threads_per_threadgroup attributes (MSL), or `!missing(name)`
+//!   or `err:<Class>` when the front end refuses the file with one of the errors the model follows
+//! oracle  : independent of the Lean model (see `judge`): every metadata entry matches annotation, declared type and
 //!           array length of the declaration with that name; every externally bound declaration has exactly one entry;
 //!           inline constant blocks match; every reported stage names a defined function with the reported size;
 //!           reachable bindings are never reported unused, and on Metal used => reachable (reachability from the
-//!           request's own call graph).
+//!           request's own use graph: bodies, default arguments, global initialisers). Supporting observables outside
+//!           the property's sentence (judged against the request): static sampler parameters, graphics pipeline state.
 use crate::compile_util::*;
 use crate::progen;
 use crate::util::*;
 use rssl::ast;
 use std::collections::{BTreeMap, BTreeSet};
 
-// ------------------------------------------------------------------------------------------------ case
-
-#[derive(Clone, Copy, PartialEq, Debug)]
-enum ArrLen {
-    No,
-    Sized(u32),
-    Unsized,
-}
-
-#[derive(Clone, Debug)]
-struct XRes {
-    name: String,
-    kind: String,
-    group: Option<u32>,
-    arr: ArrLen,
-    ss: bool,
-    bl: bool,
-    stat: bool,
-}
-
-#[derive(Clone, Debug)]
-struct XFn {
-    name: String,
-    stage: Option<String>,
-    uses: Vec<usize>,
-    calls: Vec<usize>,
-    statics: Vec<usize>,
-    threads: Option<(u32, u32, u32)>,
-}
-
-#[derive(Clone, Debug)]
-struct XPipe {
-    name: String,
-    dflt: Option<u32>,
-    stages: Vec<usize>,
-}
-
-#[derive(Clone, Debug)]
-struct Case {
-    nstatics: usize,
-    res: Vec<XRes>,
-    helpers: Vec<XFn>,
-    entries: Vec<XFn>,
-    pipes: Vec<XPipe>,
-}
-
-const EXTRA_KINDS: &[(&str, &str)] = &[
-    ("RWTexture2DArray", "RWTexture2DArray<float4>"),
-    ("TextureCubeArray", "TextureCubeArray<float4>"),
-    ("RaytracingAccelerationStructure", "RaytracingAccelerationStructure"),
-];
-
-fn type_of_kind(kind: &str) -> Option<&'static str> {
-    progen::RES_KINDS.iter().chain(EXTRA_KINDS.iter()).find(|(k, _)| *k == kind).map(|(_, t)| *t)
-}
-
-fn from_program(p: &progen::Program) -> Case {
-    let f = |f: &progen::Func, stage: Option<&str>, threads| XFn {
-        name: f.name.clone(),
-        stage: stage.map(|s| s.to_string()),
-        uses: f.uses.clone(),
-        calls: f.calls.clone(),
-        statics: f.statics.clone(),
-        threads,
-    };
-    Case {
-        nstatics: p.nstatics,
-        res: p
-            .resources
-            .iter()
-            .map(|r| XRes {
-                name: r.name.clone(),
-                kind: r.kind.clone(),
-                group: r.group,
-                arr: match r.len {
-                    Some(n) => ArrLen::Sized(n),
-                    None => ArrLen::No,
-                },
-                ss: r.static_sampler,
-                bl: r.bindless,
-                stat: false,
-            })
-            .collect(),
-        helpers: p.helpers.iter().map(|h| f(h, None, None)).collect(),
-        entries: p.entries.iter().map(|e| f(&e.func, Some(e.stage), e.threads)).collect(),
-        pipes: p
-            .pipes
-            .iter()
-            .map(|pp| XPipe { name: pp.name.clone(), dflt: pp.default_group, stages: pp.stages.clone() })
-            .collect(),
-    }
-}
-
-fn join_idx(v: &[usize]) -> String {
-    v.iter().map(|x| x.to_string()).collect::<Vec<_>>().join(",")
-}
-
-fn opt_u32(v: Option<u32>) -> String {
-    v.map(|x| x.to_string()).unwrap_or_else(|| "-".into())
-}
-
-fn threads_str(t: Option<(u32, u32, u32)>) -> String {
-    match t {
-        Some((x, y, z)) => format!("{}.{}.{}", x, y, z),
-        None => "-".into(),
-    }
-}
-
-impl Case {
-    fn encode(&self) -> String {
-        let rs: Vec<String> = self
-            .res
-            .iter()
-            .map(|r| {
-                format!(
-                    "{}:{}:{}:{}:{}:{}:{}",
-                    r.name,
-                    r.kind,
-                    opt_u32(r.group),
-                    match r.arr {
-                        ArrLen::No => "-".to_string(),
-                        ArrLen::Sized(n) => n.to_string(),
-                        ArrLen::Unsized => "u".to_string(),
-                    },
-                    r.ss as u8,
-                    r.bl as u8,
-                    if r.stat { "s" } else { "e" }
-                )
-            })
-            .collect();
-        let hs: Vec<String> = self
-            .helpers
-            .iter()
-            .map(|h| format!("{}:{}:{}:{}", h.name, join_idx(&h.uses), join_idx(&h.calls), join_idx(&h.statics)))
-            .collect();
-        let es: Vec<String> = self
-            .entries
-            .iter()
-            .map(|e| {
-                format!(
-                    "{}:{}:{}:{}:{}:{}",
-                    e.name,
-                    e.stage.clone().unwrap_or_default(),
-                    join_idx(&e.uses),
-                    join_idx(&e.calls),
-                    join_idx(&e.statics),
-                    threads_str(e.threads)
-                )
-            })
-            .collect();
-        let ps: Vec<String> =
-            self.pipes.iter().map(|p| format!("{}:{}:{}", p.name, opt_u32(p.dflt), join_idx(&p.stages))).collect();
-        format!("{}\t{}\t{}\t{}\t{}", self.nstatics, rs.join(";"), hs.join(";"), es.join(";"), ps.join(";"))
-    }
-
-    fn decode(f: &[&str]) -> Option<Case> {
-        fn idx(s: &str) -> Option<Vec<usize>> {
-            if s.is_empty() {
-                return Some(Vec::new());
-            }
-            s.split(',').map(|x| x.parse().ok()).collect()
-        }
-        fn items(s: &str) -> Vec<&str> {
-            if s.is_empty() { Vec::new() } else { s.split(';').collect() }
-        }
-        fn optn(s: &str) -> Option<Option<u32>> {
-            if s == "-" { Some(None) } else { s.parse().ok().map(Some) }
-        }
-        if f.len() != 5 {
-            return None;
-        }
-        let nstatics = f[0].parse().ok()?;
-        let mut res = Vec::new();
-        for it in items(f[1]) {
-            let p: Vec<&str> = it.split(':').collect();
-            if p.len() != 7 {
-                return None;
-            }
-            type_of_kind(p[1])?;
-            res.push(XRes {
-                name: p[0].to_string(),
-                kind: p[1].to_string(),
-                group: optn(p[2])?,
-                arr: match p[3] {
-                    "-" => ArrLen::No,
-                    "u" => ArrLen::Unsized,
-                    n => ArrLen::Sized(n.parse().ok()?),
-                },
-                ss: p[4] == "1",
-                bl: p[5] == "1",
-                stat: p[6] == "s",
-            });
-        }
-        let mut helpers = Vec::new();
-        for it in items(f[2]) {
-            let p: Vec<&str> = it.split(':').collect();
-            if p.len() != 4 {
-                return None;
-            }
-            helpers.push(XFn {
-                name: p[0].to_string(),
-                stage: None,
-                uses: idx(p[1])?,
-                calls: idx(p[2])?,
-                statics: idx(p[3])?,
-                threads: None,
-            });
-        }
-        let mut entries = Vec::new();
-        for it in items(f[3]) {
-            let p: Vec<&str> = it.split(':').collect();
-            if p.len() != 6 {
-                return None;
-            }
-            let threads = if p[5] == "-" {
-                None
-            } else {
-                let t: Vec<u32> = p[5].split('.').filter_map(|x| x.parse().ok()).collect();
-                if t.len() != 3 {
-                    return None;
-                }
-                Some((t[0], t[1], t[2]))
-            };
-            if !["Compute", "Vertex", "Pixel", "Mesh", "Task"].contains(&p[1]) {
-                return None;
-            }
-            entries.push(XFn {
-                name: p[0].to_string(),
-                stage: Some(p[1].to_string()),
-                uses: idx(p[2])?,
-                calls: idx(p[3])?,
-                statics: idx(p[4])?,
-                threads,
-            });
-        }
-        let mut pipes = Vec::new();
-        for it in items(f[4]) {
-            let p: Vec<&str> = it.split(':').collect();
-            if p.len() != 3 {
-                return None;
-            }
-            pipes.push(XPipe { name: p[0].to_string(), dflt: optn(p[1])?, stages: idx(p[2])? });
-        }
-        let c = Case { nstatics, res, helpers, entries, pipes };
-        // indices must be in range (requests may come from the shrinker / the search)
-        let nr = c.res.len();
-        for (i, h) in c.helpers.iter().enumerate() {
-            if h.uses.iter().any(|u| *u >= nr) || h.calls.iter().any(|k| *k >= i) || h.statics.iter().any(|k| *k >= nstatics) {
-                return None;
-            }
-        }
-        for e in &c.entries {
-            if e.uses.iter().any(|u| *u >= nr)
-                || e.calls.iter().any(|k| *k >= c.helpers.len())
-                || e.statics.iter().any(|k| *k >= nstatics)
-            {
-                return None;
-            }
-        }
-        for p in &c.pipes {
-            if p.stages.is_empty() || p.stages.iter().any(|k| *k >= c.entries.len()) {
-                return None;
-            }
-        }
-        Some(c)
-    }
-
-    /// helpers that share a name are overloads told apart by their number of int parameters
-    fn overload_arity(&self, h: usize) -> usize {
-        self.helpers[..h].iter().filter(|x| x.name == self.helpers[h].name).count()
-    }
-
-    fn body(&self, f: &XFn) -> String {
-        let mut s = String::new();
-        for r in &f.uses {
-            let res = &self.res[*r];
-            if res.kind == "cbuffer" {
-                s.push_str(&format!("    {}_v;\n", res.name));
-            } else if res.arr != ArrLen::No {
-                s.push_str(&format!("    {}[0u];\n", res.name));
-            } else {
-                s.push_str(&format!("    {};\n", res.name));
-            }
-        }
-        for h in &f.calls {
-            let zeros: Vec<&str> = (0..self.overload_arity(*h)).map(|_| "0").collect();
-            s.push_str(&format!("    {}({});\n", self.helpers[*h].name, zeros.join(", ")));
-        }
-        for k in &f.statics {
-            s.push_str(&format!("    s_value{} = s_value{} + 1;\n", k, k));
-        }
-        s
-    }
-
-    /// same layout as progen::render (struct CbS; statics; two structs + groupshared payload; resources; helpers;
-    /// entry points; pipelines)
-    fn render(&self) -> String {
-        let mut s = String::new();
-        s.push_str("struct CbS { float4 v; };\n");
-        for k in 0..self.nstatics {
-            s.push_str(&format!("static int s_value{} = 0;\n", k));
-        }
-        s.push_str("struct MeshVertex { float4 position : SV_Position; };\nstruct TaskPayload { uint start_location; };\ngroupshared TaskPayload lds_payload;\n");
-        for r in &self.res {
-            if r.bl {
-                s.push_str("[[rssl::bindless]] ");
-            }
-            if let Some(g) = r.group {
-                s.push_str(&format!("[[rssl::bind_group({})]] ", g));
-            }
-            if r.kind == "cbuffer" {
-                s.push_str(&format!("cbuffer {} {{ float4 {}_v; }}\n", r.name, r.name));
-                continue;
-            }
-            if r.stat {
-                s.push_str("static ");
-            }
-            s.push_str(&format!("{} {}", type_of_kind(&r.kind).unwrap(), r.name));
-            match r.arr {
-                ArrLen::No => {}
-                ArrLen::Sized(n) => s.push_str(&format!("[{}]", n)),
-                ArrLen::Unsized => s.push_str("[]"),
-            }
-            if r.ss {
-                s.push_str(" = StaticSampler { Filter = MIN_MAG_MIP_LINEAR; }");
-            }
-            s.push_str(";\n");
-        }
-        for (i, h) in self.helpers.iter().enumerate() {
-            let params: Vec<String> = (0..self.overload_arity(i)).map(|k| format!("int p{}", k)).collect();
-            s.push_str(&format!("void {}({}) {{\n{}}}\n", h.name, params.join(", "), self.body(h)));
-        }
-        // a mesh entry takes a payload when some pipeline pairs it with a task shader
-        let with_payload: BTreeSet<usize> = self
-            .pipes
-            .iter()
-            .filter(|p| p.stages.iter().any(|k| self.entries[*k].stage.as_deref() == Some("Task")))
-            .flat_map(|p| p.stages.iter().copied())
-            .collect();
-        for (k, e) in self.entries.iter().enumerate() {
-            let b = self.body(e);
-            let n = &e.name;
-            let t = e.threads.unwrap_or((64, 1, 1));
-            match e.stage.as_deref().unwrap_or("") {
-                "Compute" => s.push_str(&format!(
-                    "[numthreads({}, {}, {})]\nvoid {}(uint3 dtid : SV_DispatchThreadID) {{\n{}}}\n",
-                    t.0, t.1, t.2, n, b
-                )),
-                "Vertex" => s.push_str(&format!(
-                    "void {}(uint vid : SV_VertexID, out float4 o_pos : SV_Position) {{\n{}    o_pos = float4(0, 0, 0, 1);\n}}\n",
-                    n, b
-                )),
-                "Pixel" => s.push_str(&format!(
-                    "float4 {}(float4 i_pos : SV_Position) : SV_Target0 {{\n{}    return float4(0, 0, 0, 0);\n}}\n",
-                    n, b
-                )),
-                "Task" => s.push_str(&format!(
-                    "[numthreads({}, {}, {})]\nvoid {}(uint3 dtid : SV_DispatchThreadID) {{\n{}    lds_payload.start_location = dtid.x;\n    DispatchMesh(4u, 1u, 1u, lds_payload);\n}}\n",
-                    t.0, t.1, t.2, n, b
-                )),
-                _ => {
-                    let payload = if with_payload.contains(&k) { "    in payload TaskPayload data,\n" } else { "" };
-                    s.push_str(&format!(
-                        "[numthreads({}, {}, {})]\n[outputtopology(\"triangle\")]\nvoid {}(\n    uint3 dtid : SV_DispatchThreadID,\n{}    out vertices MeshVertex o_vertices[64],\n    out indices uint3 o_triangles[64]\n) {{\n{}    SetMeshOutputCounts(64, 64);\n    MeshVertex vertex;\n    vertex.position = float4(0, 0, 0, 1);\n    o_vertices[dtid.x] = vertex;\n    o_triangles[dtid.x] = uint3(0, 1, 2);\n}}\n",
-                        t.0, t.1, t.2, n, payload, b
-                    ));
-                }
-            }
-        }
-        for pipe in &self.pipes {
-            s.push_str(&format!("Pipeline {}\n{{\n", pipe.name));
-            for k in &pipe.stages {
-                let e = &self.entries[*k];
-                s.push_str(&format!("    {}Shader = {};\n", e.stage.as_deref().unwrap_or(""), e.name));
-            }
-            if let Some(g) = pipe.dflt {
-                s.push_str(&format!("    DefaultBindGroup = {};\n", g));
-            }
-            s.push_str("}\n");
-        }
-        s
-    }
-
-    /// resources some stage entry point of the pipeline can reach (the request's own call graph)
-    fn reachable(&self, pipe: Option<&XPipe>) -> BTreeSet<usize> {
-        let mut seen_h = BTreeSet::new();
-        let mut out = BTreeSet::new();
-        let mut stack: Vec<usize> = Vec::new();
-        if let Some(p) = pipe {
-            for k in &p.stages {
-                let e = &self.entries[*k];
-                out.extend(e.uses.iter().copied());
-                stack.extend(e.calls.iter().copied());
-            }
-        }
-        while let Some(h) = stack.pop() {
-            if !seen_h.insert(h) {
-                continue;
-            }
-            out.extend(self.helpers[h].uses.iter().copied());
-            stack.extend(self.helpers[h].calls.iter().copied());
-        }
-        out
-    }
-}
+#[path = "c05/case.rs"]
+mod case;
+#[path = "c05/state.rs"]
+mod state;
+use case::*;
 
 // ------------------------------------------------------------------------------------------------ real compile
 
@@ -486,8 +82,9 @@ struct SrcDecl {
 struct SrcFunc {
     name: String,
     has_body: bool,
-    /// numthreads literal triple (HLSL) or the total of max_total_threads_per_threadgroup (MSL, in .0)
-    threads: Option<(u64, u64, u64)>,
+    /// values of every numthreads attribute (HLSL) or the totals of every max_total_threads_per_threadgroup
+    /// attribute (MSL, in .0); `None` = an argument that could not be evaluated
+    threads: Vec<Option<(u128, u128, u128)>>,
     /// MSL: stage attribute (`kernel`, `vertex`, ..) and `[[buffer(i)]]` parameters (struct name, param name, i)
     stage_attr: Option<String>,
     buffers: Vec<(String, String, u32)>,
@@ -498,6 +95,10 @@ struct Emitted {
     decls: Vec<SrcDecl>,
     funcs: Vec<SrcFunc>,
     structs: Vec<String>,
+    /// type heads of the members of every struct of the emitted source
+    struct_members: BTreeMap<String, Vec<String>>,
+    /// initialiser expressions of the globals (to evaluate named constants inside numthreads arguments)
+    consts: BTreeMap<String, ast::Expression>,
 }
 
 fn parse_hlsl(src: &str) -> Result<ast::Module, String> {
@@ -525,6 +126,36 @@ fn lit_u64(e: &ast::Expression) -> Option<u64> {
     }
 }
 
+/// value of a constant integer expression of the emitted source (literals, named constants, + - * /, casts)
+fn eval_const(e: &ast::Expression, consts: &BTreeMap<String, ast::Expression>, depth: u32) -> Option<u128> {
+    if depth > 16 {
+        return None;
+    }
+    if let Some(v) = lit_u64(e) {
+        return Some(v as u128);
+    }
+    match e {
+        ast::Expression::Identifier(id) => {
+            let name = &id.identifiers.last()?.node;
+            eval_const(consts.get(name)?, consts, depth + 1)
+        }
+        ast::Expression::BinaryOperation(op, l, r) => {
+            let a = eval_const(&l.node, consts, depth + 1)?;
+            let b = eval_const(&r.node, consts, depth + 1)?;
+            match op {
+                ast::BinOp::Add => a.checked_add(b),
+                ast::BinOp::Subtract => a.checked_sub(b),
+                ast::BinOp::Multiply => a.checked_mul(b),
+                ast::BinOp::Divide => a.checked_div(b),
+                _ => None,
+            }
+        }
+        ast::Expression::Cast(_, inner) => eval_const(&inner.node, consts, depth + 1),
+        ast::Expression::AmbiguousParseBranch(bs) => bs.iter().find_map(|b| eval_const(&b.expr.node, consts, depth + 1)),
+        _ => None,
+    }
+}
+
 fn attr_name(a: &ast::Attribute) -> String {
     a.name.iter().map(|n| n.node.clone()).collect::<Vec<_>>().join("::")
 }
@@ -540,13 +171,18 @@ fn declarator_name(d: &ast::Declarator) -> (Option<String>, Option<ArrLen>) {
         ast::Declarator::Pointer(p) => declarator_name(&p.inner),
         ast::Declarator::Reference(r) => declarator_name(&r.inner),
         ast::Declarator::Array(a) => {
-            let (n, _) = declarator_name(&a.inner);
+            let (n, inner) = declarator_name(&a.inner);
             let len = match &a.array_size {
                 None => ArrLen::Unsized,
                 Some(e) => match lit_u64(&e.node) {
                     Some(v) => ArrLen::Sized(v as u32),
                     None => ArrLen::Unsized,
                 },
+            };
+            let len = match (inner, len) {
+                (None, l) => l,
+                (Some(ArrLen::Sized(a)), ArrLen::Sized(b)) => ArrLen::Nested(a, b),
+                (Some(_), _) => ArrLen::Nested(0, 0),
             };
             (n, Some(len))
         }
@@ -607,12 +243,36 @@ fn apply_annotations(d: &mut SrcDecl, locs: &[ast::LocationAnnotation], attrs: &
     }
 }
 
+/// first pass: named constants (they may be referenced before the function that uses them is visited)
+fn collect_consts(defs: &[ast::RootDefinition], out: &mut Emitted) {
+    for def in defs {
+        match def {
+            ast::RootDefinition::Namespace(_, inner) => collect_consts(inner, out),
+            ast::RootDefinition::GlobalVariable(gv) => {
+                for idecl in &gv.defs {
+                    if let (Some(name), Some(ast::Initializer::Expression(e))) = (declarator_name(&idecl.declarator).0, &idecl.init) {
+                        out.consts.insert(name, e.node.clone());
+                    }
+                }
+            }
+            _ => {}
+        }
+    }
+}
+
 fn walk_hlsl(defs: &[ast::RootDefinition], out: &mut Emitted) {
     for def in defs {
         match def {
             ast::RootDefinition::Namespace(_, inner) => walk_hlsl(inner, out),
             ast::RootDefinition::Struct(sd) => {
                 out.structs.push(sd.name.node.clone());
+                let mut heads = Vec::new();
+                for m in &sd.members {
+                    if let ast::StructEntry::Variable(v) = m {
+                        heads.push(type_head(&v.ty));
+                    }
+                }
+                out.struct_members.insert(sd.name.node.clone(), heads);
                 if sd.name.node.starts_with("InlineDescriptor") {
                     for m in &sd.members {
                         if let ast::StructEntry::Variable(v) = m {
@@ -667,11 +327,11 @@ fn walk_hlsl(defs: &[ast::RootDefinition], out: &mut Emitted) {
                 let mut sf = SrcFunc { name: f.name.node.clone(), has_body: f.body.is_some(), ..Default::default() };
                 for a in &f.attributes {
                     if attr_name(a) == "numthreads" {
-                        if let Some(args) = attr_args(a) {
-                            if args.len() == 3 {
-                                sf.threads = Some((args[0], args[1], args[2]));
-                            }
-                        }
+                        let vals: Vec<Option<u128>> = a.arguments.iter().map(|e| eval_const(&e.node, &out.consts, 0)).collect();
+                        sf.threads.push(match vals.as_slice() {
+                            [Some(x), Some(y), Some(z)] => Some((*x, *y, *z)),
+                            _ => None,
+                        });
                     }
                 }
                 out.funcs.push(sf);
@@ -681,10 +341,34 @@ fn walk_hlsl(defs: &[ast::RootDefinition], out: &mut Emitted) {
     }
 }
 
-/// light scan of the emitted Metal source: argument buffer structs and stage entry functions
+/// the initialiser expression of `static const uint X = <text>;` as the rssl parser reads it
+fn parse_expr_text(text: &str) -> Option<ast::Expression> {
+    let m = parse_hlsl(&format!("static const uint c05_probe = {};\n", text)).ok()?;
+    for def in &m.root_definitions {
+        if let ast::RootDefinition::GlobalVariable(gv) = def {
+            if let Some(ast::Initializer::Expression(e)) = gv.defs.first().and_then(|d| d.init.as_ref()) {
+                return Some(e.node.clone());
+            }
+        }
+    }
+    None
+}
+
+/// light scan of the emitted Metal source: argument buffer structs, named constants and stage entry functions
 fn scan_msl(src: &str) -> Emitted {
     let mut out = Emitted::default();
     let lines: Vec<&str> = src.lines().collect();
+    for l in &lines {
+        // constant uint c_nt0 = 8u;
+        if let Some(rest) = l.strip_prefix("constant ") {
+            if let (Some(eq), true) = (rest.find(" = "), rest.ends_with(';')) {
+                let name = rest[..eq].rsplit(' ').next().unwrap_or("").to_string();
+                if let Some(e) = parse_expr_text(&rest[eq + 3..rest.len() - 1]) {
+                    out.consts.insert(name, e);
+                }
+            }
+        }
+    }
     let mut i = 0;
     while i < lines.len() {
         let l = lines[i];
@@ -718,6 +402,9 @@ fn scan_msl(src: &str) -> Emitted {
                                     if let Some(tt) = t.strip_prefix("const ") {
                                         t = tt.to_string();
                                     }
+                                    if t.starts_with("metal::array<") {
+                                        arr = Some(ArrLen::Nested(0, 0));
+                                    }
                                     ty = t;
                                 }
                             }
@@ -737,19 +424,15 @@ fn scan_msl(src: &str) -> Emitted {
             }
         } else if ["[[kernel]]", "[[vertex]]", "[[fragment]]", "[[object]]", "[[mesh]]"].contains(&l.trim()) {
             let stage_attr = l.trim().trim_start_matches("[[").trim_end_matches("]]").to_string();
-            let mut threads = None;
+            let mut threads = Vec::new();
             i += 1;
             while i < lines.len() && lines[i].starts_with("[[") {
                 if let Some(rest) = lines[i].strip_prefix("[[max_total_threads_per_threadgroup(") {
-                    if let Some(expr) = rest.strip_suffix(")]]") {
-                        let parts: Option<Vec<u64>> = expr
-                            .split('*')
-                            .map(|p| p.trim().trim_end_matches('u').parse::<u64>().ok())
-                            .collect();
-                        if let Some(p) = parts {
-                            threads = Some((p.iter().product(), 0, 0));
-                        }
-                    }
+                    let total = rest
+                        .strip_suffix(")]]")
+                        .and_then(parse_expr_text)
+                        .and_then(|e| eval_const(&e, &out.consts, 0));
+                    threads.push(total.map(|t| (t, 0, 0)));
                 }
                 i += 1;
             }
@@ -836,6 +519,18 @@ fn allowed_desc(ty: &str, msl: bool) -> &'static [&'static str] {
     }
 }
 
+/// descriptor types a declaration of the given *source* kind may be reported as (used where nothing is emitted
+/// to compare with: Metal without a pipeline)
+fn desc_of_input_kind(kind: &str) -> &'static [&'static str] {
+    match kind {
+        "BufferAddress" => &["BufferAddress"],
+        "RWBufferAddress" => &["RwBufferAddress"],
+        "ByteAddressBuffer" => &["ByteBuffer"],
+        "RWByteAddressBuffer" => &["RwByteBuffer"],
+        k => allowed_desc(k, false),
+    }
+}
+
 /// D3D register class of a descriptor type
 fn register_class(desc: &str) -> char {
     match desc {
@@ -851,6 +546,12 @@ fn is_resource_type(ty: &str) -> bool {
     ty != "uint64_t" && !allowed_desc(ty, false).is_empty()
 }
 
+/// does a struct of the emitted HLSL source hold (directly or through member structs) a resource
+fn struct_holds_resource(ty: &str, em: &Emitted, depth: u32) -> bool {
+    depth < 8
+        && em.struct_members.get(ty).is_some_and(|ms| ms.iter().any(|m| is_resource_type(m) || struct_holds_resource(m, em, depth + 1)))
+}
+
 // ------------------------------------------------------------------------------------------------ observation + oracle
 
 struct Fail {
@@ -859,7 +560,12 @@ struct Fail {
 }
 
 /// failure classes that are recorded findings; anything else is reported first
-const RECORDED: &[&str] = &["entry-renamed", "msl-name-renamed", "unsized-array-unbound", "static-object-bound"];
+const RECORDED: &[&str] = &[
+    "unsized-array-unbound",
+    "nested-array-unbound",
+    "struct-resource-unbound",
+    "numthreads-ambiguous",
+];
 
 fn show_meta(m: &rssl::ir::export::PipelineDescription) -> String {
     use rssl::ir::export::ApiLocation;
@@ -904,6 +610,26 @@ fn name_class(name: &str) -> &'static str {
     }
 }
 
+/// `name_<digits>` -> name
+fn strip_generated_suffix(name: &str) -> Option<&str> {
+    let k = name.rfind('_')?;
+    if k + 1 < name.len() && name[k + 1..].chars().all(|c| c.is_ascii_digit()) { Some(&name[..k]) } else { None }
+}
+
+fn show_threads_vals(ts: &[Option<(u128, u128, u128)>], msl: bool) -> String {
+    if ts.is_empty() {
+        return "-".into();
+    }
+    ts.iter()
+        .map(|t| match t {
+            None => "?".to_string(),
+            Some(t) if msl => t.0.to_string(),
+            Some(t) => format!("{}.{}.{}", t.0, t.1, t.2),
+        })
+        .collect::<Vec<_>>()
+        .join("/")
+}
+
 /// Judge one compiled pipeline. Returns (observation, failures).
 fn judge(case: &Case, tgt: Tgt, pipe: Option<&XPipe>, out: &rssl::CompiledPipeline, hist: &mut Hist) -> (String, Vec<Fail>) {
     use rssl::ir::export::ApiLocation;
@@ -916,6 +642,7 @@ fn judge(case: &Case, tgt: Tgt, pipe: Option<&XPipe>, out: &rssl::CompiledPipeli
         match parse_hlsl(&text) {
             Ok(m) => {
                 let mut e = Emitted::default();
+                collect_consts(&m.root_definitions, &mut e);
                 walk_hlsl(&m.root_definitions, &mut e);
                 e
             }
@@ -926,11 +653,27 @@ fn judge(case: &Case, tgt: Tgt, pipe: Option<&XPipe>, out: &rssl::CompiledPipeli
         }
     };
     let reach = case.reachable(pipe);
-    let res_by_name: BTreeMap<&str, (usize, &XRes)> = case.res.iter().enumerate().map(|(i, r)| (r.name.as_str(), (i, r))).collect();
+    let mut res_by_name: BTreeMap<&str, (usize, &XRes)> = BTreeMap::new();
+    let mut shared_names: BTreeSet<&str> = BTreeSet::new();
+    for (i, r) in case.res.iter().enumerate() {
+        if res_by_name.insert(r.name.as_str(), (i, r)).is_some() {
+            shared_names.insert(r.name.as_str());
+        }
+    }
 
     // ---- 1. every metadata entry matches the declaration with that name
     let mut entries_by_name: BTreeMap<String, u32> = BTreeMap::new();
     let mut nentries = 0;
+    // names that several metadata entries share: none of them can be attributed to a declaration
+    let mut name_count: BTreeMap<&str, u32> = BTreeMap::new();
+    for b in out.metadata.bind_groups.iter().flat_map(|g| g.bindings.iter()) {
+        *name_count.entry(b.name.as_str()).or_insert(0) += 1;
+    }
+    for (n, c) in &name_count {
+        if *c > 1 {
+            fails.push(Fail { class: "entry-name-ambiguous", detail: format!("{} declarations named `{}` in the metadata", c, n) });
+        }
+    }
     for (g, group) in out.metadata.bind_groups.iter().enumerate() {
         let g = g as u32;
         for b in &group.bindings {
@@ -938,7 +681,14 @@ fn judge(case: &Case, tgt: Tgt, pipe: Option<&XPipe>, out: &rssl::CompiledPipeli
             *entries_by_name.entry(b.name.clone()).or_insert(0) += 1;
             hist.add(&format!("desc={:?}", b.descriptor_type));
             let desc = format!("{:?}", b.descriptor_type);
-            let source = res_by_name.get(b.name.as_str()).copied();
+            if name_count.get(b.name.as_str()).copied().unwrap_or(0) > 1 {
+                continue;
+            }
+            // the input declaration: by its own name, or by the name a generated `_<n>` suffix was appended to
+            let source = res_by_name
+                .get(b.name.as_str())
+                .copied()
+                .or_else(|| strip_generated_suffix(&b.name).and_then(|base| res_by_name.get(base).copied()));
             // the declaration in the emitted source
             let cands: Vec<&SrcDecl> = emitted
                 .decls
@@ -998,13 +748,25 @@ fn judge(case: &Case, tgt: Tgt, pipe: Option<&XPipe>, out: &rssl::CompiledPipeli
                     fails.push(Fail { class: "type-mismatch", detail: format!("`{}` declared as {} but reported as {}", b.name, d.ty, desc) });
                 }
                 let want_count = match d.arr {
-                    None | Some(ArrLen::No) => Some(1),
-                    Some(ArrLen::Sized(n)) => Some(n),
-                    Some(ArrLen::Unsized) => None,
+                    None | Some(ArrLen::No) => Some(Some(1)),
+                    Some(ArrLen::Sized(n)) => Some(Some(n)),
+                    Some(ArrLen::Unsized) => Some(None),
+                    // no single length to compare with
+                    Some(ArrLen::Nested(..)) => None,
                 };
-                if b.descriptor_count != want_count {
+                if want_count.is_some_and(|w| b.descriptor_count != w) {
                     fails.push(Fail { class: "count-mismatch", detail: format!("`{}` declared with {:?} but descriptor_count {:?}", b.name, d.arr, b.descriptor_count) });
                 }
+            }
+            // two input declarations of one (leaf) name: the entry can not be attributed to either
+            if shared_names.contains(b.name.as_str()) {
+                fails.push(Fail { class: "entry-name-ambiguous", detail: format!("2 declarations named `{}` in the request", b.name) });
+                continue;
+            }
+            if source.is_some_and(|(_, r)| shared_names.contains(r.name.as_str())) {
+                // a generated name whose base name two input declarations share: not attributable from outside
+                hist.add("binding=not-attributable");
+                continue;
             }
             // flags that only the input declaration carries
             if let Some((idx, r)) = source {
@@ -1014,6 +776,11 @@ fn judge(case: &Case, tgt: Tgt, pipe: Option<&XPipe>, out: &rssl::CompiledPipeli
                 let want_ss = r.ss && !msl;
                 if b.static_sampler.is_some() != want_ss {
                     fails.push(Fail { class: "static-sampler-mismatch", detail: format!("`{}` static sampler {} but reported {}", b.name, want_ss, b.static_sampler.is_some()) });
+                } else if let Some(ss) = &b.static_sampler {
+                    let want = state::sampler_props(r.sprops).1;
+                    if **ss != want {
+                        fails.push(Fail { class: "static-sampler-mismatch", detail: format!("`{}` declared `{}` but reported {:?}", b.name, state::sampler_props(r.sprops).0, ss) });
+                    }
                 }
                 let reachable = reach.contains(&idx);
                 hist.add(if reachable { "binding=reachable" } else { "binding=unreachable" });
@@ -1025,12 +792,16 @@ fn judge(case: &Case, tgt: Tgt, pipe: Option<&XPipe>, out: &rssl::CompiledPipeli
                 }
                 if msl && pipe.is_none() {
                     // compare with the input declaration instead
+                    if !desc_of_input_kind(&r.kind).contains(&desc.as_str()) {
+                        fails.push(Fail { class: "type-mismatch", detail: format!("`{}` declared as {} but reported as {}", b.name, r.kind, desc) });
+                    }
                     let want = match r.arr {
-                        ArrLen::No => Some(1),
-                        ArrLen::Sized(n) => Some(n),
-                        ArrLen::Unsized => None,
+                        ArrLen::No => Some(Some(1)),
+                        ArrLen::Sized(n) => Some(Some(n)),
+                        ArrLen::Unsized => Some(None),
+                        ArrLen::Nested(..) => None,
                     };
-                    if b.descriptor_count != want {
+                    if want.is_some_and(|w| b.descriptor_count != w) {
                         fails.push(Fail { class: "count-mismatch", detail: format!("`{}` declared with {:?} but descriptor_count {:?}", b.name, r.arr, b.descriptor_count) });
                     }
                 }
@@ -1057,6 +828,7 @@ fn judge(case: &Case, tgt: Tgt, pipe: Option<&XPipe>, out: &rssl::CompiledPipeli
 
     // ---- 2. every externally bound declaration of the emitted source has exactly one entry
     for d in &emitted.decls {
+        let holds = !msl && d.in_struct.is_none() && !d.is_static && struct_holds_resource(&d.ty, &emitted, 0);
         let external = if msl {
             d.in_struct.as_deref().is_some_and(|s| s.starts_with("ArgumentBuffer"))
         } else if d.in_struct.is_some() {
@@ -1064,7 +836,7 @@ fn judge(case: &Case, tgt: Tgt, pipe: Option<&XPipe>, out: &rssl::CompiledPipeli
         } else if d.name.starts_with("g_inlineDescriptor") {
             false // described by BindGroup::inline_constants
         } else {
-            d.ty == "cbuffer" || (!d.is_static && is_resource_type(&d.ty))
+            d.ty == "cbuffer" || (!d.is_static && is_resource_type(&d.ty)) || holds
         };
         if !external {
             continue;
@@ -1075,8 +847,33 @@ fn judge(case: &Case, tgt: Tgt, pipe: Option<&XPipe>, out: &rssl::CompiledPipeli
                 fails.push(Fail { class: "msl-name-renamed", detail: format!("argument buffer member `{}` has no metadata entry of that name", d.name) });
             } else if d.arr == Some(ArrLen::Unsized) && n == 0 {
                 fails.push(Fail { class: "unsized-array-unbound", detail: format!("`{} {}[]` is declared in the emitted source without annotation and without metadata entry", d.ty, d.name) });
+            } else if matches!(d.arr, Some(ArrLen::Nested(..))) && n == 0 {
+                fails.push(Fail { class: "nested-array-unbound", detail: format!("`{} {}[..][..]` is declared in the emitted source without annotation and without metadata entry", d.ty, d.name) });
+            } else if holds && n == 0 {
+                fails.push(Fail { class: "struct-resource-unbound", detail: format!("`{} {}` (a struct holding resources) is declared in the emitted source without annotation and without metadata entry", d.ty, d.name) });
             } else {
                 fails.push(Fail { class: "declaration-entries", detail: format!("externally bound `{}` has {} metadata entries", d.name, n) });
+            }
+        }
+    }
+
+    if msl && pipe.is_none() {
+        // no argument buffers are emitted in this mode: count the entries against the input declarations
+        for r in &case.res {
+            let prefix = format!("{}_", r.name);
+            if shared_names.contains(r.name.as_str()) || case.res.iter().any(|o| o.name.starts_with(&prefix)) {
+                continue; // not attributable by name
+            }
+            let bindable = !r.ss && !r.stat && r.kind != "struct" && matches!(r.arr, ArrLen::No | ArrLen::Sized(_));
+            let n = out
+                .metadata
+                .bind_groups
+                .iter()
+                .flat_map(|g| g.bindings.iter())
+                .filter(|b| b.name == r.name || strip_generated_suffix(&b.name) == Some(r.name.as_str()))
+                .count();
+            if n != bindable as usize {
+                fails.push(Fail { class: "declaration-entries", detail: format!("input declaration `{}` (externally bound: {}) has {} metadata entries", r.name, bindable, n) });
             }
         }
     }
@@ -1109,12 +906,27 @@ fn judge(case: &Case, tgt: Tgt, pipe: Option<&XPipe>, out: &rssl::CompiledPipeli
             continue;
         }
         let f = found[0];
+        f_parts.push(format!("{}:{}", f.name, show_threads_vals(&f.threads, msl)));
+        let reported = st.thread_group_size.map(|(x, y, z)| (x as u128, y as u128, z as u128));
+        let reported = if msl { reported.map(|(x, y, z)| (x * y * z, 0, 0)) } else { reported };
+        let distinct: BTreeSet<Option<(u128, u128, u128)>> = f.threads.iter().copied().collect();
+        if distinct.len() > 1 {
+            fails.push(Fail {
+                class: "numthreads-ambiguous",
+                detail: format!("`{}` is emitted with {} different thread group size attributes ({}), reported {:?}", f.name, distinct.len(), show_threads_vals(&f.threads, msl), st.thread_group_size),
+            });
+        } else if distinct.iter().next().copied().unwrap_or(None) != reported || (f.threads.is_empty() != reported.is_none()) {
+            // the function of that name is another function when the entry point itself was renamed
+            let prefix = format!("{}_", st.entry_point);
+            let renamed = !msl && emitted.funcs.iter().any(|x| x.name.starts_with(&prefix) && x.threads.last().copied().unwrap_or(None) == reported);
+            fails.push(Fail {
+                class: if renamed { "entry-renamed" } else { "thread-group-size" },
+                detail: format!("stage {} reports entry point `{}` {:?} but the emitted function of that name has thread group size {} (functions: {})",
+                    kind, f.name, st.thread_group_size, show_threads_vals(&f.threads, msl),
+                    emitted.funcs.iter().map(|f| f.name.as_str()).collect::<Vec<_>>().join(" ")),
+            });
+        }
         if msl {
-            let total = st.thread_group_size.map(|(x, y, z)| x as u64 * y as u64 * z as u64);
-            f_parts.push(format!("{}:{}", f.name, f.threads.map(|t| t.0.to_string()).unwrap_or_else(|| "-".into())));
-            if f.threads.map(|t| t.0) != total {
-                fails.push(Fail { class: "thread-group-size", detail: format!("`{}` reported {:?} but emitted total {:?}", f.name, st.thread_group_size, f.threads) });
-            }
             let want_attr = match kind.as_str() {
                 "Compute" => "kernel",
                 "Vertex" => "vertex",
@@ -1135,21 +947,19 @@ fn judge(case: &Case, tgt: Tgt, pipe: Option<&XPipe>, out: &rssl::CompiledPipeli
             if f.buffers.len() != out.metadata.bind_groups.len() {
                 fails.push(Fail { class: "argument-buffer-param", detail: format!("`{}` has {} buffer parameters for {} groups", f.name, f.buffers.len(), out.metadata.bind_groups.len()) });
             }
-        } else {
-            let t = f.threads.map(|(x, y, z)| (x as u32, y as u32, z as u32));
-            f_parts.push(format!("{}:{}", f.name, threads_str(t)));
-            if t != st.thread_group_size {
-                // the function of that name is another function when the entry point itself was renamed
-                let prefix = format!("{}_", st.entry_point);
-                let renamed = emitted.funcs.iter().any(|x| x.name.starts_with(&prefix) && x.threads.map(|(a, b, c)| (a as u32, b as u32, c as u32)) == st.thread_group_size);
-                fails.push(Fail {
-                    class: if renamed { "entry-renamed" } else { "thread-group-size" },
-                    detail: format!("stage {} reports entry point `{}` {:?} but the emitted function of that name has numthreads {:?} (functions: {})",
-                        kind, f.name, st.thread_group_size, f.threads,
-                        emitted.funcs.iter().map(|f| f.name.as_str()).collect::<Vec<_>>().join(" ")),
-                });
-            }
         }
+    }
+
+    // ---- 4. supporting observable: the graphics pipeline state is the declared one (judged against the request)
+    let want_state = pipe.and_then(|p| {
+        let first_is_compute = p.stages.first().is_some_and(|k| case.entries[*k].stage.as_deref() == Some("Compute"));
+        if first_is_compute { None } else { Some(state::graphics_props(p.gstate).1) }
+    });
+    if out.graphics_pipeline_state != want_state {
+        fails.push(Fail { class: "pipeline-state", detail: format!("declared {:?} but reported {:?}", want_state, out.graphics_pipeline_state).chars().take(400).collect() });
+    }
+    if pipe.is_some_and(|p| p.gstate != 0) {
+        hist.add("variant=graphics-state");
     }
 
     // ---- observation
@@ -1192,6 +1002,17 @@ fn parse_mode(s: &str) -> Option<Mode> {
     }
 }
 
+/// front-end errors the model follows: message -> class
+const FRONT_ERRORS: &[(&str, &str)] = &[
+    ("pipeline with the same name is already defined", "PipelineAlreadyDefined"),
+    ("pipeline must have at least one entry point", "PipelineNoEntryPoint"),
+    ("pipeline has an invalid combination of stages", "PipelineInvalidStageCombination"),
+    ("unknown function for entry point", "PipelineEntryPointFunctionUnknown"),
+    ("property declared multiple times", "PipelinePropertyDuplicate"),
+    ("graphics pipeline state may only be applied to a graphics pipeline", "PipelinePropertyRequiresGraphicsPipeline"),
+    ("static sampler has unexpected binding index", "StaticSamplerUnexpectedBindingIndex"),
+];
+
 fn run_case(case: &Case, tgt: Tgt, mode: &Mode, out: &mut Out, hist: &mut Hist) {
     let req = format!("C05.meta\t{}\t{}\t{}", tgt.name(), mode.show(), case.encode());
     let src = case.render();
@@ -1199,16 +1020,39 @@ fn run_case(case: &Case, tgt: Tgt, mode: &Mode, out: &mut Out, hist: &mut Hist) 
     hist.add(&format!("mode={}", match mode { Mode::All => "all", Mode::Named(_) => "named", Mode::NoPipeline => "nopipeline" }));
     hist.add(&format!("resources={}", case.res.len()));
     hist.add(&format!("pipes={}", case.pipes.len()));
+    if case.layout == 1 { hist.add("variant=layout-interleaved"); }
+    if !case.inits.is_empty() { hist.add("variant=global-initialisers"); }
     for r in &case.res {
         hist.add(&format!("kind={}", r.kind));
-        if r.arr == ArrLen::Unsized { hist.add("variant=unsized-array"); }
+        match r.arr {
+            ArrLen::Unsized => hist.add("variant=unsized-array"),
+            ArrLen::Nested(..) => hist.add("variant=nested-array"),
+            _ => {}
+        }
         if r.stat { hist.add("variant=static-object"); }
         if r.bl { hist.add("variant=bindless"); }
         if r.ss { hist.add("variant=static-sampler"); }
+        if r.empty { hist.add("variant=empty-cbuffer"); }
+        if r.ns { hist.add("variant=namespaced"); }
+        if r.gspell != GSpell::Attr && r.group.is_some() { hist.add(&format!("variant=group-spelling-{:?}", r.gspell)); }
+        if r.reg_index.is_some() || r.vk_index.is_some() { hist.add("variant=explicit-index"); }
+        if r.sprops != 0 { hist.add("variant=sampler-properties"); }
         if name_class(&r.name) != "plain" { hist.add("variant=special-resource-name"); }
+    }
+    for f in case.helpers.iter().chain(case.entries.iter()) {
+        for (_, s) in &f.uses {
+            if *s != ' ' { hist.add(&format!("use-shape={}", s)); }
+        }
+        if !f.dflt.is_empty() { hist.add("variant=default-argument-use"); }
+        if f.nt != 0 { hist.add(&format!("variant=numthreads-spelling-{}", f.nt)); }
+        if f.fd { hist.add("variant=forward-declaration"); }
+    }
+    for p in &case.pipes {
+        if p.stages.len() == 2 && case.entries[p.stages[0]].stage.as_deref() == Some("Pixel") { hist.add("variant=stages-reversed"); }
     }
     match compile_raw(&src, tgt, mode) {
         Raw::Err(e) => {
+            let known = FRONT_ERRORS.iter().find(|(m, _)| e.contains(m)).map(|(_, c)| *c);
             let obs = if e == "Shader does not contain a single pipeline" {
                 "err:none".to_string()
             } else if e.starts_with("Shader does not contain the pipeline: ") {
@@ -1216,17 +1060,23 @@ fn run_case(case: &Case, tgt: Tgt, mode: &Mode, out: &mut Out, hist: &mut Hist) 
             } else if e.contains("metal generate: UnsupportedBindGroupIndex(") {
                 // a bind group beyond the argument buffers Metal provides is refused cleanly (predicted by the model)
                 "err:UnsupportedBindGroupIndex".to_string()
+            } else if let Some(c) = known {
+                format!("err:{}", c)
             } else {
                 format!("err:{}", one_line(&e.chars().take(100).collect::<String>()))
             };
             hist.add("outcome=error");
-            let skip = !(obs == "err:none" || obs == "err:unknown" || obs == "err:UnsupportedBindGroupIndex");
+            hist.add(&format!("error={}", obs.chars().take(60).collect::<String>()));
+            let skip = !(obs == "err:none" || obs == "err:unknown" || obs == "err:UnsupportedBindGroupIndex" || known.is_some());
             out.case(&req, &obs, if skip { "SKIP:compile error" } else { "ok" });
         }
         Raw::Panic(p) => {
             hist.add("outcome=panic");
-            // a panic is a C08 matter; it is reported here only as skipped input
-            out.case(&req, &format!("panic:{}", p), "SKIP:panic (C08)");
+            // a panic is a C08 matter; it is reported here only as skipped input -- except a panic of the pipeline
+            // driver itself (src/compile.rs): the model, which follows that file, predicts an answer for the request,
+            // so the case is compared (and disagrees)
+            let driver = p.contains("src/compile.rs");
+            out.case(&req, &format!("panic:{}", p), if driver { "ok" } else { "SKIP:panic (C08)" });
         }
         Raw::Ok(ps) => {
             hist.add("outcome=ok");
@@ -1260,7 +1110,7 @@ fn run_case(case: &Case, tgt: Tgt, mode: &Mode, out: &mut Out, hist: &mut Hist) 
 
 // ------------------------------------------------------------------------------------------------ generation
 
-/// variants that exercise the known weak spots (each rare, so that most cases are clean)
+/// variants on top of the shared program generator (each rare enough that most cases stay clean)
 fn mutate(case: &mut Case, rng: &mut Rng, hist: &mut Hist) {
     // an entry point whose name is reserved in a target language
     if !case.entries.is_empty() && rng.chance(1, 24) {
@@ -1285,6 +1135,25 @@ fn mutate(case: &mut Case, rng: &mut Rng, hist: &mut Hist) {
     if !case.res.is_empty() && rng.chance(1, 24) {
         let k = rng.below(case.res.len() as u64) as usize;
         case.res[k].name = (*rng.pick(&["main", "kernel", "vertex", "fragment"])).to_string();
+    }
+    // a global whose name is reserved in HLSL next to a cbuffer block called like the name generated for it
+    // (cbuffer blocks keep their source name on HLSL)
+    if rng.chance(1, 40) {
+        let g = (0..case.res.len()).find(|k| case.res[*k].kind != "cbuffer");
+        let c = (0..case.res.len()).find(|k| case.res[*k].kind == "cbuffer" && !case.res[*k].empty);
+        if let (Some(g), Some(c)) = (g, c) {
+            case.res[g].name = "float16_t".to_string();
+            case.res[c].name = "float16_t_0".to_string();
+            hist.add("variant=cbuffer-named-like-generated-name");
+        }
+    }
+    // two resources with one leaf name, one of them inside a namespace
+    if case.res.len() >= 2 && rng.chance(1, 40) {
+        let n = case.res[0].name.clone();
+        case.res[1].name = n;
+        case.res[1].ns = true;
+        case.res[0].ns = false;
+        hist.add("variant=same-leaf-name-in-namespace");
     }
     // an unsized array
     if !case.res.is_empty() && rng.chance(1, 24) {
@@ -1313,7 +1182,179 @@ fn mutate(case: &mut Case, rng: &mut Rng, hist: &mut Hist) {
         let k = rng.below(case.res.len() as u64) as usize;
         let r = &mut case.res[k];
         if r.kind.starts_with("Texture") {
-            r.kind = rng.pick(EXTRA_KINDS).0.to_string();
+            r.kind = rng.pick(&EXTRA_KINDS[..3]).0.to_string();
+        }
+    }
+    // a two-dimensional resource array / a global of a struct type that holds resources (reached by an entry point in
+    // half of the cases only: Metal panics when it is)
+    if !case.res.is_empty() && rng.chance(1, 10) {
+        let k = rng.below(case.res.len() as u64) as usize;
+        let r = &mut case.res[k];
+        if r.kind.starts_with("Texture2D") && !r.bl && !r.stat && r.arr != ArrLen::Unsized {
+            if rng.chance(1, 2) {
+                r.arr = ArrLen::Nested(2, 1 + rng.below(3) as u32);
+            } else {
+                r.kind = "struct".to_string();
+                r.arr = ArrLen::No;
+            }
+            if rng.chance(1, 2) {
+                for f in case.helpers.iter_mut().chain(case.entries.iter_mut()) {
+                    f.uses.retain(|u| u.0 != k);
+                }
+            }
+        }
+    }
+    // how the bind group is written, explicit language-level indices, namespaces, sampler property sets
+    for r in case.res.iter_mut() {
+        let annotatable = r.kind != "struct" && !matches!(r.arr, ArrLen::Nested(..));
+        if r.group.is_some() && rng.chance(1, 2) {
+            r.gspell = *rng.pick(&[GSpell::Reg, GSpell::Vk, GSpell::Over]);
+            // vk::binding carries an index, which a static sampler must not have
+            if (!annotatable && r.gspell != GSpell::Vk) || (r.ss && r.gspell == GSpell::Vk) {
+                r.gspell = GSpell::Attr;
+            }
+        }
+        if annotatable && !r.ss && rng.chance(1, 6) {
+            r.reg_index = Some(rng.below(12) as u32);
+        }
+        if !r.ss && rng.chance(1, 8) {
+            r.vk_index = Some(rng.below(12) as u32);
+        }
+        if rng.chance(1, 8) {
+            r.ns = true;
+        }
+        if r.ss && rng.chance(1, 2) {
+            r.sprops = 1 + rng.below(200) as u32;
+        }
+    }
+    // statement shapes around resource mentions
+    for f in case.helpers.iter_mut().chain(case.entries.iter_mut()) {
+        for u in f.uses.iter_mut() {
+            if rng.chance(1, 3) {
+                u.1 = *rng.pick(SHAPES);
+            }
+        }
+    }
+    // helpers that return a value, default parameter values that read resources
+    let eligible: Vec<usize> = (0..case.res.len()).filter(|r| case.value_expr(*r).is_some()).collect();
+    let names: Vec<String> = case.helpers.iter().map(|h| h.name.clone()).collect();
+    for h in case.helpers.iter_mut() {
+        if rng.chance(1, 3) {
+            h.ret = true;
+        }
+        let unique = names.iter().filter(|n| **n == h.name).count() == 1;
+        if unique && !eligible.is_empty() && rng.chance(1, 4) {
+            for _ in 0..1 + rng.below(2) {
+                h.dflt.push(*rng.pick(&eligible));
+            }
+        }
+    }
+    // forward declarations
+    for f in case.helpers.iter_mut().chain(case.entries.iter_mut()) {
+        if f.dflt.is_empty() && rng.chance(1, 8) {
+            f.fd = true;
+        }
+    }
+    // globals whose initialiser reads resources, calls helpers, reads other globals
+    if rng.chance(1, 3) {
+        let ret_helpers: Vec<usize> = (0..case.helpers.len()).filter(|h| case.helpers[*h].ret).collect();
+        for k in 0..1 + rng.below(3) as usize {
+            let mut i = XInit::default();
+            if !eligible.is_empty() && rng.chance(2, 3) {
+                i.uses.push(*rng.pick(&eligible));
+            }
+            if !ret_helpers.is_empty() && rng.chance(1, 2) {
+                i.calls.push(*rng.pick(&ret_helpers));
+            }
+            if k > 0 && rng.chance(1, 2) {
+                i.prev.push(rng.below(k as u64) as usize);
+            }
+            if case.nstatics > 0 && rng.chance(1, 3) {
+                i.statics.push(rng.below(case.nstatics as u64) as usize);
+            }
+            case.inits.push(i);
+        }
+        let n = case.inits.len();
+        for e in case.entries.iter_mut() {
+            if rng.chance(1, 2) {
+                e.inits.push(rng.below(n as u64) as usize);
+            }
+        }
+    }
+    // thread group sizes: other sizes for mesh / task, named constants and arithmetic, missing / unexpected attributes
+    for e in case.entries.iter_mut() {
+        let st = e.stage.clone().unwrap_or_default();
+        if (st == "Mesh" || st == "Task") && rng.chance(1, 2) {
+            e.threads = Some((1 << rng.below(6) as u32, 1 + rng.below(2) as u32, 1));
+        }
+        if st == "Compute" && rng.chance(1, 30) {
+            e.threads = None;
+        }
+        // sizes beyond 16 bits, and a zero
+        if st == "Compute" && rng.chance(1, 20) {
+            e.threads = Some((65536 + rng.below(1000) as u32, rng.below(3) as u32, 1 + rng.below(70000) as u32));
+        }
+        if (st == "Vertex" || st == "Pixel") && rng.chance(1, 30) {
+            e.threads = Some((4, 2, 1));
+        }
+        if e.threads.is_some() && rng.chance(1, 5) {
+            e.nt = 1 + rng.below(2) as u32;
+        }
+        if e.threads.is_some() && rng.chance(1, 40) {
+            e.nt = 3;
+        }
+    }
+    // graphics state, DefaultBindGroup written as an expression
+    for p in case.pipes.iter_mut() {
+        let compute = p.stages.first().is_some_and(|k| case.entries[*k].stage.as_deref() == Some("Compute"));
+        if !compute && rng.chance(1, 2) {
+            p.gstate = 1 + rng.below(500) as u32;
+        }
+        if p.dflt.is_some() && rng.chance(1, 3) {
+            p.dexpr = true;
+        }
+    }
+    // a pipeline whose name is a prefix of another pipeline's name (selection by name must be exact)
+    if case.pipes.len() >= 2 && rng.chance(1, 6) {
+        let n = format!("{}0", case.pipes[0].name);
+        case.pipes[1].name = n;
+        hist.add("variant=pipeline-name-prefix");
+    }
+    // files the front end refuses (the model predicts the error class; nothing to judge)
+    if !case.pipes.is_empty() && rng.chance(1, 12) {
+        let k = rng.below(case.pipes.len() as u64) as usize;
+        hist.add("variant=front-end-error");
+        match rng.below(7) {
+            0 if case.pipes.len() >= 2 => {
+                let n = case.pipes[0].name.clone();
+                case.pipes[k.max(1)].name = n;
+            }
+            1 if !case.helpers.is_empty() => {
+                let e = case.pipes[k].stages[0];
+                case.entries[e].name = case.helpers[0].name.clone();
+            }
+            2 => {
+                // a compute stage next to another stage
+                if let Some(c) = (0..case.entries.len()).find(|e| case.entries[*e].stage.as_deref() == Some("Compute")) {
+                    let first = case.pipes[k].stages[0];
+                    if case.entries[first].stage.as_deref() != Some("Compute") || case.pipes[k].stages.len() > 1 {
+                        case.pipes[k].stages.push(c);
+                    } else if let Some(o) = (0..case.entries.len()).find(|e| matches!(case.entries[*e].stage.as_deref(), Some("Pixel") | Some("Vertex"))) {
+                        case.pipes[k].stages.push(o);
+                    }
+                }
+            }
+            3 => {
+                let first = case.pipes[k].stages[0];
+                case.pipes[k].stages.push(first);
+            }
+            4 => case.pipes[k].gstate = 1 + rng.below(500) as u32,
+            5 => case.pipes[k].stages.clear(),
+            _ => {
+                if let Some(r) = case.res.iter_mut().find(|r| r.ss) {
+                    r.vk_index = Some(3);
+                }
+            }
         }
     }
 }
@@ -1328,7 +1369,9 @@ pub fn run(args: &Args, out: &mut Out) {
         match compile_raw(&src, tgt, &mode) {
             Raw::Ok(ps) => {
                 for p in ps {
-                    println!("=== metadata {:?}\n{}", p.metadata, String::from_utf8_lossy(&p.data));
+                    println!("=== metadata {:?}\n=== stages {:?}\n{}", p.metadata,
+                        p.stages.iter().map(|s| format!("{:?}:{}:{:?}", s.stage, s.entry_point, s.thread_group_size)).collect::<Vec<_>>(),
+                        String::from_utf8_lossy(&p.data));
                 }
             }
             Raw::Err(e) => println!("ERR {}", e),
@@ -1354,7 +1397,7 @@ pub fn run(args: &Args, out: &mut Out) {
         out.stat(&format!("{{\"mode\":\"replay\",\"hist\":{}}}", hist.json()));
         return;
     }
-    let n = args.n.unwrap_or(if args.thorough() { 2500 } else { 130 });
+    let n = args.n.unwrap_or(if args.thorough() { 4000 } else { 250 });
     let mut rng = Rng::new(args.seed);
     for _ in 0..n {
         let seed = rng.next() >> 16;
@@ -1365,6 +1408,12 @@ pub fn run(args: &Args, out: &mut Out) {
         let prog = progen::gen_program(&mut prng, &progen::GenOpts { max_resources: 8, allow_mesh, ..Default::default() });
         let mut case = from_program(&prog);
         mutate(&mut case, &mut prng, &mut hist);
+        // the codec is the single source of truth: what is run is what the request line says
+        let enc = case.encode();
+        let Some(case) = Case::decode(&enc.split('\t').collect::<Vec<_>>()) else {
+            hist.add("generator=undecodable");
+            continue;
+        };
         for tgt in ALL_TARGETS {
             run_case(&case, tgt, &Mode::All, out, &mut hist);
             if !case.pipes.is_empty() {
@@ -1390,10 +1439,12 @@ pub fn run(args: &Args, out: &mut Out) {
                 for role in 0..2 {
                     let mut case = Case {
                         nstatics: 0,
-                        res: vec![XRes { name: "g_t".into(), kind: "Texture2D".into(), group: None, arr: ArrLen::No, ss: false, bl: false, stat: false }],
+                        layout: 0,
+                        inits: vec![],
+                        res: vec![XRes::plain("g_t", "Texture2D")],
                         helpers: vec![],
-                        entries: vec![XFn { name: "cs_0".into(), stage: Some("Compute".into()), uses: vec![0], calls: vec![], statics: vec![], threads: Some((8, 4, 1)) }],
-                        pipes: vec![XPipe { name: "P0".into(), dflt: None, stages: vec![0] }],
+                        entries: vec![XFn { name: "cs_0".into(), stage: Some("Compute".into()), uses: vec![(0, ' ')], threads: Some((8, 4, 1)), ..Default::default() }],
+                        pipes: vec![XPipe { name: "P0".into(), dflt: None, stages: vec![0], gstate: 0, dexpr: false }],
                     };
                     if role == 0 {
                         case.entries[0].name = name.clone();
